@@ -5,6 +5,8 @@ reinitialize_parameters -> ...: id / storage pointer / shape / values of every
 parameter of every network; rbm_ph.aux_bias at every batch_end of every training
 run (recorder callback); exception + digests for fit without bases.
 """
+import os
+
 import numpy as np
 import torch
 
@@ -76,6 +78,10 @@ def run_case(case, ctx):
     if default_h or dmode == 2:
         na = nv
     partial = (not default_h) and dmode in (2, 3) and kind == "mixed"
+    # sizes arrive as whatever integer type the caller's arithmetic produced (np.arange, array shapes, len())
+    size_type = [int, np.int64, np.int32, np.intp][(i // 2) % 4]
+    ctx.seen("size_argument_types", size_type.__name__)
+    nv_, nh_, na_ = size_type(nv), size_type(nh), size_type(na)
     tags = {"state": kind, "via_module": via_module}
     ops = []
     import qucumber
@@ -85,12 +91,12 @@ def run_case(case, ctx):
     if via_module:
         if kind == "mixed":
             if partial:
-                module = PurificationRBM(nv, num_hidden=nh, gpu=False) if dmode == 2 else PurificationRBM(nv, num_aux=na, gpu=False)
+                module = PurificationRBM(nv_, num_hidden=nh_, gpu=False) if dmode == 2 else PurificationRBM(nv_, num_aux=na_, gpu=False)
                 ctx.count("partially_defaulted_sizes")
             else:
-                module = PurificationRBM(nv, None if default_h else nh, None if default_h else na, gpu=False)
+                module = PurificationRBM(nv_, None if default_h else nh_, None if default_h else na_, gpu=False)
         else:
-            module = BinaryRBM(nv, None if default_h else nh, gpu=False)
+            module = BinaryRBM(nv_, None if default_h else nh_, gpu=False)
         for n_, p_ in module.named_parameters():  # non-zero biases so that "equal values" is informative
             p_.data.copy_(torch.tensor(gen._tensor(rng, tuple(p_.shape), 0.7)))
         if kind == "mixed":
@@ -121,14 +127,14 @@ def run_case(case, ctx):
                         {id(p) for p in ph.parameters()} & {id(p) for p in st.rbm_am.parameters()}:
                     ctx.violation("phase-network-aliased", "phase and amplitude networks share parameter storage", tags=tags)
     else:
-        args = (nv,) if default_h else ((nv, nh, na) if kind == "mixed" else (nv, nh))
+        args = (nv_,) if default_h else ((nv_, nh_, na_) if kind == "mixed" else (nv_, nh_))
         gpu_req = bool(i % 5 == 0)  # requesting the GPU on a CPU-only machine must fall back (with a warning), not fail
         import warnings as _w
         with _w.catch_warnings():
             _w.simplefilter("ignore")
             if partial:
-                kw_ = {"num_hidden": nh} if dmode == 2 else {"num_aux": na}
-                st = ctx.lib("construct(sizes)", CLS[kind], nv, gpu=gpu_req, tags=dict(tags, gpu_requested=gpu_req, sizes_given=",".join(kw_)), **kw_)
+                kw_ = {"num_hidden": nh_} if dmode == 2 else {"num_aux": na_}
+                st = ctx.lib("construct(sizes)", CLS[kind], nv_, gpu=gpu_req, tags=dict(tags, gpu_requested=gpu_req, sizes_given=",".join(kw_)), **kw_)
                 ctx.count("partially_defaulted_sizes")
             else:
                 st = ctx.lib("construct(sizes)", CLS[kind], *args, gpu=gpu_req, tags=dict(tags, gpu_requested=gpu_req))
@@ -199,8 +205,26 @@ def run_case(case, ctx):
             rec = trainrec.recorder_callback(log)
             d0 = monitors.params_digest(st)
             data = torch.tensor(R.space(nv)[rng.integers(0, 2 ** nv, size=4)], dtype=torch.double)
-            if ctx.must_raise("fit(no input_bases)", ValueError, st.fit, data, epochs=2, pos_batch_size=2, callbacks=[rec], tags=tags):
-                ctx.count("fit_without_bases_rejections")
+            # call forms: ordinary / nothing to train (epochs=0, starting_epoch beyond epochs) / keyword None; "before anything
+            # changes" covers the callbacks, the random stream and files a saver would write
+            form = int(rng.integers(0, 4))
+            kw_nb = [dict(epochs=2), dict(epochs=0), dict(epochs=2, starting_epoch=5), dict(epochs=2, input_bases=None)][form]
+            ctx.seen("refused_fit_call_forms", ["epochs=2", "epochs=0", "starting_epoch>epochs", "input_bases=None"][form])
+            rng_before = torch.get_rng_state().clone()
+            import tempfile as _tf, shutil as _sh
+            from qucumber.callbacks import ModelSaver as _MS
+
+            sv_dir = _tf.mkdtemp(prefix="verif-c20-", dir="/var/tmp")
+            try:
+                saver = _MS(1, sv_dir, "ep_{}.pt", save_initial=True)
+                if ctx.must_raise("fit(no input_bases)", ValueError, st.fit, data, pos_batch_size=2, callbacks=[rec, saver], tags=tags, **kw_nb):
+                    ctx.count("fit_without_bases_rejections")
+                written = sorted(os.listdir(sv_dir))
+            finally:
+                _sh.rmtree(sv_dir, ignore_errors=True)
+            if written or not torch.equal(torch.get_rng_state(), rng_before):
+                ctx.violation("refused-fit-had-effects", f"fit without bases was refused only after side effects: files written {written}, "
+                              f"random stream advanced: {not torch.equal(torch.get_rng_state(), rng_before)}", tags=tags)
             if len(log) or monitors.params_digest(st) != d0:
                 ctx.violation("refused-fit-had-effects", f"fit without bases emitted {len(log)} events / changed parameters "
                               f"({monitors.params_digest(st) != d0}) before refusing", tags=tags)
